@@ -431,6 +431,8 @@ pub struct World {
     /// addresses served by the check itself (puppet peers): datagrams sent there are collected here
     /// as (arrival time, source, bytes)
     pub sinks: BTreeMap<SocketAddr, Vec<(u64, SocketAddr, Vec<u8>)>>,
+    /// C09: a genuine datagram handed to a connection must reach the peer of the connection that emitted it
+    pub check_routing: bool,
     /// applications of connections accepted from a sink address are created in manual mode
     pub manual_apps_for_sinks: bool,
 }
@@ -516,6 +518,7 @@ impl World {
             client_token_store: None,
             server_token_log: None,
             sinks: BTreeMap::new(),
+            check_routing: false,
             manual_apps_for_sinks: true,
             spec,
         };
@@ -1250,6 +1253,23 @@ impl World {
         let routed = match ev {
             Some(DatagramEvent::ConnectionEvent(ch, ce)) => match self.eps[ep].by_handle.get(&ch.0).copied() {
                 Some(k) => {
+                    if self.check_routing && !f.corrupted && !f.injected {
+                        if let Some(o) = f.origin_conn {
+                            // the emitter's peer, if it exists already; a client's handshake packets may
+                            // only ever reach the connection created for it
+                            let expected = self.conns[o].peer;
+                            let wrong = match expected {
+                                Some(e) => e != k,
+                                None => self.conns[k].peer != Some(o),
+                            };
+                            if wrong {
+                                self.viol.push(Viol {
+                                    sig: "c09/misrouted".into(),
+                                    msg: format!("datagram {} emitted by connection {o} ({:?}, peer {:?}) from {} was handed to connection {k} ({:?}, peer {:?}) by endpoint {ep}", f.dgram_id, self.conns[o].side, expected, f.from, self.conns[k].side, self.conns[k].peer),
+                                });
+                            }
+                        }
+                    }
                     self.conns[k].last_rx_us = self.now;
                     let before = self.conns[k].c.stats().frame_rx.datagram;
                     let mut authed_before = 0;
